@@ -8,7 +8,7 @@ PROPS = {
         models=[dict(module="AnchorSM3", anchor=True, about="SM3.tla reproduces the OpenSSL-made digests of corpus/sm3_openssl_bytes.ndjson"),
                 dict(module="MC_SM3", about="PadImpl = Pad, padding invariants for every length 0..1100 and giant lengths; machine = Hash for all splits")],
         stages=[dict(suite="sm3", trace="TraceSM3",
-                     required_classes={"both": ["sm3.hash/empty", "sm3.hash/r55", "sm3.hash/r56", "sm3.hash/r63", "sm3.hash/r0", "sm3.hash/multi"]})],
+                     required_classes={"both": ["sm3.hash/empty", "sm3.hash/r55", "sm3.hash/r56", "sm3.hash/r63", "sm3.hash/r0", "sm3.hash/multi", "sm3.block/hook-block", "sm3.final/giant-final"]})],
         assumptions=["SM3.tla transcribes GB/T 32905 (anchored by the standard's examples and OpenSSL digests as ASSUMEs)",
                      "TLC, CommunityModules Json/IOUtils/Bitwise"],
     ),
@@ -190,7 +190,7 @@ PROPS = {
         models=[dict(module="AnchorSM9q", anchor=True, workers=1, tier="quick", about="SM9.tla reproduces the GM/T 0044.5 Annex extraction / signature / ciphertext values via the derived evaluator; G0 has order N"), dict(module="AnchorSM9", anchor=True, workers=1, tier="thorough", timeout=900, about="all GM/T 0044.5 Annex values incl. the definitional pairings, decryption and key exchange; G0Const = Pairing(P1,P2)")],
         stages=[dict(suite="sm9pair", trace="TraceSM9", timeout=3400,
                      required_classes={"both": ["sm9.pairing/pairing.exact.generators", "sm9.pairing/pairing.exact.near-order", "sm9.pairing/pairing.exact.random", "sm9.pairing/pairing.exact.annex-g",
-                                                "sm9.pair_ident/pairing.bilinear.random", "sm9.pair_ident/pairing.bilinear.near-order", "gt.pow/gt.pow.e=N-2"]})],
+                                                "sm9.pair_ident/pairing.bilinear.random", "sm9.pair_ident/pairing.bilinear.near-order", "gt.pow/gt.pow.e=N-2", "gt.pow/gt.pow.sparse"]})],
         assumptions=["BN.tla: textbook R-ate pairing over Fp[w]/(w^12+2), final exponent by definition; anchored by the Annex value of e(P1, Ppub-s) through the signature example"],
     ),
     "C13": dict(
